@@ -412,6 +412,14 @@ class InstanceWriteProvider(BaseProvider):
                     if orig_value is None or prop.value != orig_value:
                         self.validate_reference_property_endpoint_exists(prop,)
 
+        # The other namespaces the association instance is stored in, as
+        # defined by its reference properties before the modification.
+        old_assoc_namespaces = []
+        if self.is_association(creation_class):
+            old_assoc_namespaces = \
+                self.find_multins_association_ref_namespaces(
+                    original_instance, namespace)
+
         # Update the properties in the original instance from properties
         # in the modified instance
         original_instance.update(modified_instance.properties)
@@ -421,19 +429,35 @@ class InstanceWriteProvider(BaseProvider):
         # If association class and reference properties define multiple
         # namespaces, modify instance in each namespace defined in the
         # instance.
+        assoc_namespaces = []
         if self.is_association(creation_class):
             assoc_namespaces = self.find_multins_association_ref_namespaces(
                 original_instance, namespace)
-            if assoc_namespaces:
-                # It is a multi-namespace association instance. Validate
-                # characteristics of other namespaces and insert the same
-                # instance in each of these namespaces with specific path.
-                self.modify_multi_namespace_instance(
-                    original_instance, assoc_namespaces)
-                return
 
-        # Replace the instance in the CIM repository with the local copy.
-        instance_store.update(original_instance.path, original_instance)
+        # Namespaces the modified instance does not reference any more
+        # (namespace names are case insensitive)
+        stale_namespaces = [ns for ns in old_assoc_namespaces
+                            if ns not in NocaseList(assoc_namespaces)]
+
+        if assoc_namespaces:
+            # It is a multi-namespace association instance. Validate
+            # characteristics of other namespaces and insert the same
+            # instance in each of these namespaces with specific path.
+            self.modify_multi_namespace_instance(
+                original_instance, assoc_namespaces)
+        else:
+            # Replace the instance in the CIM repository with the local copy.
+            instance_store.update(original_instance.path, original_instance)
+
+        # Remove the copies of the instance in the namespaces it does not
+        # reference any more; they would still be found when traversing
+        # from the former end point.
+        for ns in stale_namespaces:
+            stale_path = original_instance.path.copy()
+            stale_path.namespace = ns
+            stale_store = self.cimrepository.get_instance_store(ns)
+            if stale_store.object_exists(stale_path):
+                stale_store.delete(stale_path)
 
     def DeleteInstance(self, InstanceName):
         """
